@@ -82,3 +82,42 @@ Proof.
   intros [k u] [k' v] _ E. cbn [fst snd] in E. apply andb_true_iff in E. destruct E as [E1 E2].
   apply String.eqb_eq in E1. apply pyval_eqb_sound in E2. subst. reflexivity.
 Qed.
+
+(* ================= tables: clauses 24 and 25 on an observed output ================= *)
+(* Row_Spec with observed cells: floats are observed as binary64 tokens and matched against the
+   expected decimal by cell_match (exact for int / str / nan / inf, half-ulp test for decimals) *)
+Definition Row_Obs (first : option string) (excl : list string) (n : Z) (r : row)
+           (o : list (string * cell)) : Prop :=
+  NoDup (map fst o) /\
+  (forall k, ocell_match (if smem k excl then None
+                          else match lookup String.eqb k r with Some v => expected n v | None => None end)
+                         (lookup String.eqb k o) = true) /\
+  (forall f, first = Some f -> In f (map fst o) -> exists t', map fst o = f :: t').
+
+Lemma row_checker_sound first excl n r o :
+  row_spec_b excl n r o = true -> first_b first [o] = true -> Row_Obs first excl n r o.
+Proof.
+  unfold row_spec_b. intros H Hf. apply andb_true_iff in H. destruct H as [H1 H2].
+  split; [apply nodup_b_NoDup, H1|]. split.
+  - intros k. destruct (in_dec string_dec k (map fst r ++ map fst o)) as [Hin|Hnot].
+    + rewrite forallb_forall in H2. apply (H2 k Hin).
+    + assert (Hr : ~ In k (map fst r)) by (intros Hk; apply Hnot, in_or_app; left; exact Hk).
+      assert (Ho : ~ In k (map fst o)) by (intros Hk; apply Hnot, in_or_app; right; exact Hk).
+      rewrite (lookup_notin String.eqb seqb_sound k r Hr), (lookup_notin String.eqb seqb_sound k o Ho).
+      destruct (smem k excl); reflexivity.
+  - intros f -> Hin. cbn [first_b forallb] in Hf. rewrite andb_true_r in Hf.
+    apply smem_in in Hin. rewrite Hin in Hf. cbn [negb orb] in Hf.
+    destruct o as [|[k c] t]; [discriminate|]. apply String.eqb_eq in Hf. subst. cbn [map fst]. eexists; reflexivity.
+Qed.
+
+Lemma first_b_cons first o out : first_b first (o :: out) = first_b first [o] && first_b first out.
+Proof. destruct first; [|reflexivity]. cbn [first_b forallb]. rewrite andb_true_r. reflexivity. Qed.
+
+Theorem rows_checker_sound first excl n : forall rows out,
+  rows_spec_b excl n rows out = true -> first_b first out = true -> Forall2 (Row_Obs first excl n) rows out.
+Proof.
+  induction rows as [|r rows IH]; intros [|o out] H Hf; try discriminate; [constructor|].
+  cbn [rows_spec_b] in H. apply andb_true_iff in H. destruct H as [H1 H2].
+  rewrite first_b_cons in Hf. apply andb_true_iff in Hf. destruct Hf as [Hf1 Hf2].
+  constructor; [apply row_checker_sound; assumption|apply IH; assumption].
+Qed.
